@@ -15,7 +15,13 @@
 (*   width      fit batch -> number of output columns                      *)
 (* Calls: Fit, FitTransform, Transform, Refit (new estimator, same         *)
 (* configuration and integer seed, same batch), SetKnob (memory / chunk /  *)
-(* thread settings that must not matter), and failing variants.           *)
+(* thread settings that must not matter), New (the estimator object is     *)
+(* dropped; the next Fit constructs a fresh one with the same              *)
+(* configuration and seed) and failing variants.  Within one lifetime a    *)
+(* second Fit RE-FITS THE SAME OBJECT: memo, models and width survive both *)
+(* New and re-fits, so a row / model / width obtained after a re-fit must  *)
+(* equal the one a fresh estimator gives for the same fit batch and item - *)
+(* nothing of an earlier fit or transform may leak into a later one.       *)
 (* An OBSERVATION of a call carries: the returned row classes, the width,  *)
 (* whether fit returned the estimator, whether arguments / constructor     *)
 (* parameter objects / fitted attributes / the temporary directory were    *)
@@ -67,12 +73,14 @@ Clauses(s, c, o) ==
       [] c.op = "transform" -> (IF s.phase # "fitted" THEN {"transform_before_fit"} ELSE {})
                                \cup (IF ~o.model_ok THEN {"transform_changed_the_model"} ELSE {})
                                \cup RowClauses(s, s.fb, c, o)
+      [] c.op = "new" -> {}
       [] OTHER -> {})
 After(s, c, o) ==
    CASE o.raised -> s
      [] c.op \in {"fit", "refit"} -> [s EXCEPT !.phase = "fitted", !.fb = c.b, !.models = Put(s.models, c.b, o.model)]
      [] c.op = "fit_transform" -> Learn([s EXCEPT !.phase = "fitted", !.fb = c.b, !.models = Put(s.models, c.b, o.model)], c.b, c, o)
      [] c.op = "transform" -> Learn(s, s.fb, c, o)
+     [] c.op = "new" -> [s EXCEPT !.phase = "new", !.fb = <<>>]
      [] OTHER -> s
 
 \* ---------------------------------------------------------------- generation of call histories
@@ -89,10 +97,13 @@ Refit == /\ "refit" \in Ops /\ phase = "fitted" /\ Len(h) < MaxCalls
 SetKnob(k) == /\ "knob" \in Ops /\ phase = "fitted" /\ Len(h) < MaxCalls
               /\ (h = <<>> \/ h[Len(h)].op # "knob")
               /\ h' = Append(h, Call("knob", <<>>, k)) /\ UNCHANGED <<phase, fb>>
+New == /\ "new" \in Ops /\ phase = "fitted" /\ Len(h) < MaxCalls - 1
+       /\ h' = Append(h, Call("new", <<>>, 0)) /\ phase' = "new" /\ fb' = <<>>
 Next == \/ \E b \in Batches : Fit(b) \/ FitTransform(b) \/ Transform(b)
-        \/ Refit \/ \E k \in 1..NKnobs : SetKnob(k)
+        \/ Refit \/ New \/ \E k \in 1..NKnobs : SetKnob(k)
 Spec == Init /\ [][Next]_vars
 \* the life cycle itself: transform is only generated on a fitted estimator
-LifeCycle == \A i \in DOMAIN h : h[i].op \in {"transform", "refit", "knob"} => \E j \in 1..(i - 1) : h[j].op \in {"fit", "fit_transform"}
+LifeCycle == \A i \in DOMAIN h : h[i].op \in {"transform", "refit", "knob", "new"} =>
+                \E j \in 1..(i - 1) : h[j].op \in {"fit", "fit_transform"} /\ \A k \in (j + 1)..(i - 1) : h[k].op # "new"
 EmitInv == IF EMIT /\ Len(h) = MaxCalls THEN PrintT(ToJson([h |-> h])) ELSE TRUE
 ====
